@@ -493,7 +493,14 @@ func (vm *Type) Run(retResult bool) (value.Type, error) {
 				m = ctxp.m
 				ip = ctxp.ip
 
-				m.Push(tmp)
+				// like a returned function, a yielded one must not keep pointing
+				// into the stack of the context it leaves: that stack is recycled
+				val := tmp
+				if f, ok := val.ToFunction(); ok && f.Frame != nil {
+					frame := slices.Clone(*f.Frame)
+					val.SetFrame(&frame)
+				}
+				m.Push(val)
 			}
 
 		case bytecode.READ:
